@@ -34,57 +34,116 @@ ASSUMPTIONS = [
 
 TOPICS = [1, 1, 2, 11, 11, 3, 0, 100]   # names t1 / t11: one is a string prefix of the other
 GROUPS = [1, 2, 3, 0]
-PARTS = [0, 0, 1, 2, 4, -1, 7]
+# partition indexes: in range, just beyond the largest topic (counts go up to 8), negative — for EVERY op that takes one
+PARTS = [0, 0, 1, 2, 3, 5, 8, 9, -1]
+# small pools so that equal offsets / equal metadata recur (re-commit of the same offset with other metadata, etc.)
+COFFS = [0, 5, 5, 42, -1]
+MDS = [0, 1, 2]
+LASTS = [-1, 0, 5, 5, 41, 100]
 
 
-def gen_op(rng, admissible=True):
-    t = rng.choice(TOPICS)
-    k = rng.below(100)
-    if k < 12:
-        return "ct %d %d %d" % (t, rng.choice([1, 1, 2, 3, 5, 0, -1]), rng.choice([1, 1, 0, 2, 3, -1]))
-    if k < 18:
-        return "dt %d" % t
-    if k < 27:
-        return "cp %d %d" % (t, rng.choice([1, 2, 3, 4, 6, 8, 0, -2]))
-    if k < 33:
-        return "md " + (",".join(str(rng.choice(TOPICS + [9])) for _ in range(rng.range(1, 3))) if rng.chance(1, 2) else "-")
-    if k < 43:
-        return "no %d %d" % (t, rng.choice(PARTS))
-    if k < 53:
-        return "uo %d %d %d" % (t, rng.choice(PARTS), rng.choice([-1, 0, 1, 5, 9, 41, 100, 1000, 7] + ([] if admissible else [-2, -50])))
-    if k < 63:
-        # Admissible (theorem hypothesis): non-empty group id and a legal topic name for commits
-        g = rng.choice([1, 2, 3]) if admissible else rng.choice(GROUPS)
-        tt = rng.choice([1, 2, 3, 11]) if admissible else t
-        return "co %d %d %d %d %d" % (g, tt, rng.choice(PARTS), rng.choice([0, 1, 5, 42, -1, 77]), rng.choice([0, 1, 2, 9]))
-    if k < 71:
-        return "fo %d %d %d" % (rng.choice(GROUPS), t, rng.choice(PARTS))
-    if k < 75:
-        return "lo"
-    if k < 81:
-        return "pg %d %d" % (rng.choice(GROUPS), rng.choice([1, 2, 3, 4, 5, 6, 10, 15]))
-    if k < 86:
-        return "fg %d" % rng.choice(GROUPS)
-    if k < 89:
-        return "lg"
-    if k < 92:
-        return "dg %d" % rng.choice(GROUPS)
-    if k < 96:
-        return "fc %d" % t
-    return "uc %d %d %d" % (t, rng.choice([0, 1, 3, 8]), rng.choice([1, 2, 3]))
+class Gen:
+    """Generator with memory: remembers what the history touched so that it can come back to the same keys
+    (same commit key with the same offset and other metadata, offsets of partitions a topic does not have,
+    delete-then-recreate with another partition count) and so that the read-back covers every touched key."""
+
+    def __init__(self, rng, admissible=True):
+        self.rng, self.adm = rng, admissible
+        self.commits = []          # (g, t, p, off, md)
+        self.ckeys = set()         # (g, t, p)
+        self.topics = set()        # topic ids mentioned
+
+    def commit(self, g, t, p, off, md):
+        self.commits.append((g, t, p, off, md))
+        self.ckeys.add((g, t, p))
+        return "co %d %d %d %d %d" % (g, t, p, off, md)
+
+    def op(self):
+        rng = self.rng
+        t = rng.choice(TOPICS)
+        self.topics.add(t)
+        k = rng.below(100)
+        if k < 12:
+            return ["ct %d %d %d" % (t, rng.choice([1, 1, 2, 3, 5, 8, 0, -1]), rng.choice([1, 1, 0, 2, 3, -1]))]
+        if k < 16:
+            return ["dt %d" % t]
+        if k < 20:
+            # delete, re-create with another partition count, read the whole partition range back
+            n = rng.choice([1, 2, 4, 6, 8])
+            return ["dt %d" % t, "ct %d %d 1" % (t, n)] + ["no %d %d" % (t, p) for p in range(-1, 10)]
+        if k < 28:
+            return ["cp %d %d" % (t, rng.choice([1, 2, 3, 4, 6, 8, 0, -2]))]
+        if k < 33:
+            return ["md " + (",".join(str(rng.choice(TOPICS + [9])) for _ in range(rng.range(1, 3))) if rng.chance(1, 2) else "-")]
+        if k < 42:
+            return ["no %d %d" % (t, rng.choice(PARTS))]
+        if k < 53:
+            # any partition index, whether or not the topic (currently) has it: UpdateOffsets does not validate it
+            return ["uo %d %d %d" % (t, rng.choice(PARTS), rng.choice(LASTS + ([] if self.adm else [-2, -50])))]
+        if k < 65:
+            if self.commits and rng.chance(1, 2):
+                # come back to an earlier key: same offset with other metadata, or other offset with the same metadata
+                g, tt, p, off, md = rng.choice(self.commits)
+                if rng.chance(2, 3):
+                    md = rng.choice([m for m in MDS + [9] if m != md])
+                else:
+                    off = rng.choice(COFFS)
+                return [self.commit(g, tt, p, off, md)]
+            # Admissible (theorem hypothesis): non-empty group id and a legal topic name for commits
+            g = rng.choice([1, 2, 3]) if self.adm else rng.choice(GROUPS)
+            tt = rng.choice([1, 2, 3, 11]) if self.adm else t
+            return [self.commit(g, tt, rng.choice(PARTS), rng.choice(COFFS), rng.choice(MDS))]
+        if k < 72:
+            if self.commits and rng.chance(2, 3):
+                g, tt, p, _, _ = rng.choice(self.commits)
+                return ["fo %d %d %d" % (g, tt, p)]
+            return ["fo %d %d %d" % (rng.choice(GROUPS), t, rng.choice(PARTS))]
+        if k < 75:
+            return ["lo"]
+        if k < 81:
+            return ["pg %d %d" % (rng.choice(GROUPS), rng.choice([1, 2, 3, 4, 5, 6, 10, 15]))]
+        if k < 86:
+            return ["fg %d" % rng.choice(GROUPS)]
+        if k < 89:
+            return ["lg"]
+        if k < 92:
+            return ["dg %d" % rng.choice(GROUPS)]
+        if k < 96:
+            return ["fc %d" % t]
+        return ["uc %d %d %d" % (t, rng.choice([0, 1, 3, 8]), rng.choice([1, 2, 3]))]
+
+    def probe(self):
+        """Full observation of the visible state: every (topic, partition -1..9), every commit key the history
+        touched (offset AND metadata come back in `fo`), listings, groups."""
+        ops = ["md -", "lo", "lg"]
+        for t in (1, 11, 2, 3):
+            ops += ["no %d %d" % (t, p) for p in range(-1, 10)]
+        ops += ["fo %d %d %d" % k for k in sorted(self.ckeys)]
+        ops += ["fo 1 1 0", "fo 2 11 9", "fg 1", "fg 2", "fg 3"]
+        return ops
 
 
 PREAMBLE = ["ct 1 3 1", "ct 11 3 1", "ct 2 2 1", "uo 1 0 41", "uo 11 0 17", "uo 11 1 5", "uo 2 1 8",
-            "co 1 1 0 5 1", "co 1 11 0 9 2", "co 2 2 1 3 0", "pg 1 3", "pg 2 4"]
-# full observation of the visible state, appended to every history so that a difference left behind by any
-# operation is seen even if the random tail does not happen to read it
-PROBE = (["md -", "lo", "lg"] + ["no %d %d" % (t, p) for t in (1, 11, 2, 3) for p in (0, 1)] +
-         ["fo %d %d %d" % (g, t, p) for g in (1, 2) for t in (1, 11, 2) for p in (0, 1)] + ["fg 1", "fg 2", "fg 3"])
+            "uo 1 5 41", "uo 2 9 5", "uo 11 -1 7",              # partitions the topic does not have
+            "pg 1 3", "pg 2 4"]
 
 
 def gen_case(rng, n, admissible=True):
-    pre = PREAMBLE if rng.chance(2, 3) else []
-    return ["new %d" % rng.choice([1, 2, 2, 3])] + pre + [gen_op(rng, admissible) for _ in range(n)] + PROBE
+    g = Gen(rng, admissible)
+    ops = ["new %d" % rng.choice([1, 2, 2, 3])]
+    if rng.chance(2, 3):
+        ops += PREAMBLE
+        ops += [g.commit(1, 1, 0, 5, 1), g.commit(1, 11, 0, 9, 2), g.commit(2, 2, 1, 3, 0),
+                g.commit(1, 1, 0, 5, 2)]                       # same key, same offset, other metadata
+    while len(ops) < n:
+        ops += g.op()
+    ops += g.probe()
+    # delete every topic and re-create it larger: whatever an operation left behind under a partition index the
+    # topic did not have at the time becomes readable now; then observe everything again
+    for t in (1, 11, 2):
+        ops += ["dt %d" % t, "ct %d %d 1" % (t, rng.choice([6, 8, 10]))]
+    ops += g.probe()
+    return ops
 
 
 def split(line):
@@ -154,10 +213,13 @@ def run(ck):
         return
     binary = bins["h"]
     ck.cov["rule"] = ("a case = `new <brokers>` + a generated history of Store operations (15 kinds) over 5 topic ids (incl. the empty and "
-                      "an illegal name), 4 group ids, boundary partitions/offsets; non-trivial = the history contains a successful topic "
+                      "an illegal name), 4 group ids, partition indexes in and out of the topic's range for every op that takes one, small "
+                      "offset/metadata pools with deliberate re-commits of an earlier key, delete-then-recreate with another partition "
+                      "count, followed by a full read-back (every topic x partition -1..9, every touched commit key), a delete/re-create "
+                      "sweep and a second full read-back; non-trivial = the history contains a successful topic "
                       "create, a delete or growth, and at least one read that returns stored data; distinct = distinct histories")
-    ncases = 30 if ck.quick() else 300
-    nops = 45 if ck.quick() else 120
+    ncases = 24 if ck.quick() else 250
+    nops = 55 if ck.quick() else 120
     cases = corpus() + [gen_case(ck.rng.fork(), nops) for _ in range(ncases)]
     nadm = len(cases)
     # outside the theorem's hypotheses (empty group ids, illegal topics in commits, offsets < -1): the two stores may
